@@ -198,6 +198,85 @@ def rasterizeD (B : Burner) (t : Template) (geoms : List Geom) (values : Option 
   rasterizeG B t geoms (values.getD (.one defaultValue)) (fill.getD defaultFill)
     (allTouched.getD defaultAllTouched)
 
+/-! ## the call: parameter order, Python's argument binding, sessions of calls -/
+
+/-- the parameters of `rasterize` in signature order, all positional-or-keyword (re-extracted from
+    `inspect.signature` on every run, Tie 1: obligation `rasterize_params`) -/
+def paramOrder : List String :=
+  ["geometries", "array", "values", "fill", "dtype", "xdim", "ydim", "all_touched"]
+
+/-- the optional parameters, in the documented order -/
+def optionalOrder : List String := paramOrder.drop 2
+
+/-- Python's binding of a call `f(*pos, **kw)` to parameters `order` that are all
+    positional-or-keyword: positional arguments go to the leading parameters in signature order,
+    keyword arguments by name; too many positional arguments, an unknown keyword or a keyword for a
+    parameter already bound positionally is a `TypeError` (`none`) -/
+def bindCall {α : Type} (order : List String) (pos : List α) (kw : List (String × α)) :
+    Option (List (String × α)) :=
+  if order.length < pos.length then none
+  else if kw.all (fun p => order.contains p.1 && !((order.take pos.length).contains p.1)) then
+    some ((order.take pos.length).zip pos ++ kw)
+  else none
+
+/-- an argument as the caller writes it -/
+inductive Arg
+  | values (v : Values)     -- a list / tuple of values
+  | num (r : Rat)           -- a number (one value for all geometries, or the fill value)
+  | flag (b : Bool)
+  | other                   -- dtype, dimension names: not read by the index-space model
+  deriving Repr
+
+def Arg.values? : Arg → Option Values
+  | .values v => some v
+  | .num r => some (.one r)
+  | _ => none
+
+def Arg.num? : Arg → Option Rat
+  | .num r => some r
+  | _ => none
+
+def Arg.flag? : Arg → Option Bool
+  | .flag b => some b
+  | _ => none
+
+/-- `rasterize` on bound arguments: a parameter that is not bound takes its default -/
+def rasterizeBound (B : Burner) (t : Template) (geoms : List Geom) (b : List (String × Arg)) :
+    Except AErr Raster :=
+  rasterizeD B t geoms ((b.lookup "values").bind Arg.values?) ((b.lookup "fill").bind Arg.num?)
+    ((b.lookup "all_touched").bind Arg.flag?)
+
+/-- `rasterize(geometries, array, *pos, **kw)`; `none` = `TypeError` of the binding -/
+def rasterizeCall (B : Burner) (t : Template) (geoms : List Geom) (pos : List Arg)
+    (kw : List (String × Arg)) : Option (Except AErr Raster) :=
+  (bindCall optionalOrder pos kw).map (rasterizeBound B t geoms)
+
+/-- one request of a session -/
+structure Request where
+  t : Template
+  geoms : List Geom
+  values : Option Values
+  fill : Option Rat
+  allTouched : Option Bool
+
+/-- the answer to a request on its own -/
+def answer (B : Burner) (r : Request) : Except AErr Raster :=
+  rasterizeD B r.t r.geoms r.values r.fill r.allTouched
+
+/-- what happens in a process that uses `rasterize`: a call, or the caller overwriting the cells of the
+    `k`-th raster it was given (a returned raster belongs to the caller) -/
+inductive Event
+  | call (r : Request)
+  | poison (k : Nat) (g : Grid)
+
+/-- the rasters the caller holds after an event: the code keeps no state, so a call appends the answer
+    to that request alone and touches nothing else; poisoning changes exactly the raster named -/
+def step (B : Burner) (held : List (Except AErr Raster)) : Event → List (Except AErr Raster)
+  | .call r => held ++ [answer B r]
+  | .poison k g => held.modify k (fun x => x.map (fun r => { r with grid := g }))
+
+def runSession (B : Burner) (evs : List Event) : List (Except AErr Raster) := evs.foldl (step B) []
+
 /-- the straight-line part of `get_coord_index(arr, dim, value, raise_error=False)` over the
     numbers it reads: range `lo hi` (`get_dim_range`), axis size `n`, pandas' right slice bound
     `sb` (tied to the source for all inputs by symbolic trace, Tie 1b) -/
